@@ -133,3 +133,61 @@ fn k_topic_alias_nonzero() {
     assert!(got == (v != 0), "Topic Alias 0 accepted on PUBLISH");
     kani::cover!(got);
 }
+
+/// C19/C20: a publication that carries correlation data next to a user-supplied property list
+/// (`correlate(..)` + `properties(..)`, replies) is validated entry by entry like a plain list.
+/// Bound: lists of at most 2 entries drawn from {User Property, Server Reference, Topic Alias 0}
+/// (validity of every single kind/value/context is k_is_valid_for's job).
+fn small(k: u8) -> Property<'static> {
+    match k {
+        0 => Property::UserProperty("k", "v"),
+        1 => Property::ServerReference("s"),
+        _ => Property::TopicAlias(0),
+    }
+}
+
+fn valid_for_correlated(correlate_first: bool) {
+    let c: u8 = kani::any();
+    kani::assume(c < 5);
+    let k1: u8 = kani::any();
+    let k2: u8 = kani::any();
+    kani::assume(k1 < 3 && k2 < 3);
+    let n: usize = kani::any();
+    kani::assume(n <= 2);
+    let arr = [small(k1), small(k2)];
+    let props = if correlate_first {
+        Properties::from_slice(&[]).with_correlation(&[7, 7]).with_properties(&arr[..n])
+    } else {
+        Properties::from_slice(&arr[..n]).with_correlation(&[7, 7])
+    };
+    let corr_ok = Property::CorrelationData(&[7, 7]).is_valid_for(ctx(c));
+    let want = corr_ok && (n < 1 || arr[0].is_valid_for(ctx(c))) && (n < 2 || arr[1].is_valid_for(ctx(c)));
+    assert!(props.valid_for(ctx(c)) == want);
+    kani::cover!(n == 2 && want);
+    kani::cover!(n == 2 && corr_ok && !want);
+}
+
+#[cfg_attr(kani, kani::proof)]
+#[cfg_attr(verif_replay, test)]
+#[cfg_attr(kani, kani::stub(crate::de::deserializer::MqttDeserializer::new, crate::de::deserializer::MqttDeserializer::verif_no_encoded_block))]
+#[cfg_attr(kani, kani::unwind(5))]
+fn k_valid_for_correlated() {
+    valid_for_correlated(false);
+}
+
+#[cfg_attr(kani, kani::proof)]
+#[cfg_attr(verif_replay, test)]
+#[cfg_attr(kani, kani::stub(crate::de::deserializer::MqttDeserializer::new, crate::de::deserializer::MqttDeserializer::verif_no_encoded_block))]
+#[cfg_attr(kani, kani::unwind(5))]
+fn k_valid_first_correlated() {
+    valid_for_correlated(true);
+}
+
+/// the harnesses above build decoded (slice) representations only: the lazily decoding iterator arm
+/// must be unreachable there; reaching it fails the harness instead of exploring the serde decoder
+#[cfg(kani)]
+impl<'a> MqttDeserializer<'a> {
+    fn verif_no_encoded_block(_buf: &'a [u8]) -> Self {
+        panic!("encoded property block reached in a decoded-list harness")
+    }
+}
